@@ -399,6 +399,27 @@ func registerLibIntrinsics() {
 		in.writeTo(fr, args[0], s)
 		return Tuple{Int(0), Iface{}}, true
 	}
+	I["fmt.Sscanf"] = func(in *Interp, fr *frame, args []Value) (Value, bool) {
+		c := in.needConcrete(fr, "fmt.Sscanf", args[0], args[1])
+		ptrs := variadicArgs(args[2])
+		nat := make([]interface{}, len(ptrs))
+		ints := make([]int, len(ptrs))
+		for i := range ptrs {
+			nat[i] = &ints[i]
+		}
+		n, err := fmt.Sscanf(c[0], c[1], nat...)
+		for i, p := range ptrs {
+			if it, ok := p.(Iface); ok {
+				if cell, ok := it.V.(*Value); ok && i < n {
+					*cell = normInt(uint64(int64(ints[i])), 64, true)
+				}
+			}
+		}
+		if err != nil {
+			return Tuple{Int(n), in.newError(CStr(err.Error()), nil)}, true
+		}
+		return Tuple{Int(n), Iface{}}, true
+	}
 	I["fmt.Println"] = noop(Tuple{Int(0), Iface{}})
 	I["fmt.Printf"] = noop(Tuple{Int(0), Iface{}})
 	I["fmt.Print"] = noop(Tuple{Int(0), Iface{}})
